@@ -144,8 +144,10 @@ URL_FORMS = ["http://%s/a.b/co.uk?x=y.z", "https://user:pw@%s:8080/", "//%s#frag
 def _variants(host, k):
     """bare lower always; two more rotating variants"""
     yield host, host
-    alts = [host.upper(), host + ".", host.capitalize() + "."] + [f % host for f in URL_FORMS] + \
-           [(URL_FORMS[0] % host.upper())]
+    up = host.upper() if host.upper().lower() == host else host   # 'straße'.upper().lower() != 'straße': no case variant there
+    cap = host.capitalize() if host.capitalize().lower() == host else host
+    alts = [up, host + ".", cap + "."] + [f % host for f in URL_FORMS] + \
+           [(URL_FORMS[0] % up)]
     yield alts[k % len(alts)], host
     yield alts[(k // 3 + 4) % len(alts)], host
 
@@ -264,7 +266,7 @@ def _tld_enum(acc, shard, nshards, seed, tier):
 def _random_hosts(tier):
     B = bundled()
     labels = sorted({l for r in B["rules"][:4000] for l in r.lstrip("!*.").split(".") if l and l != "*"})[:3000]
-    lab = st.one_of(st.sampled_from(labels), st.sampled_from(["zz", "example", "www", "foo-bar", "x1", "city", "svc", "co", "com", "uk", "jp", "ck", "kawasaki", "firenet", "ch"]))
+    lab = st.one_of(st.sampled_from(labels), st.sampled_from(["zz", "example", "www", "foo-bar", "x1", "city", "svc", "co", "com", "uk", "jp", "ck", "kawasaki", "firenet", "ch", "straße", "ΒΌΛΟΣ", "βόλος", "ǅ", "ﬁn", "İstanbul", "ſ"]))
     host = st.lists(lab, min_size=1, max_size=5).map(".".join)
 
     def mk(v):
